@@ -138,6 +138,8 @@ def finish_cfg(case: dict, rng: random.Random) -> dict:
     cfg = case['config']
     if cfg.get('backend') == 'maildir':
         cfg.setdefault('layout', rng.choice(['++', 'fs']))
+        if rng.random() < 0.5:
+            cfg.setdefault('keywords', ['$Label1', 'custom', '$Junk'])
         # generators write UID sets for the dict backend (first UID 101)
         import re
 
